@@ -1054,7 +1054,8 @@ def replay_in_this_process(item):
 
 
 def _xproc_main():
-    from harness import engine
+    from harness import engine, covprobe
+    covprobe.install_from_env()
     engine.use_repo()
     job = json.loads(sys.stdin.read())
     sys.stdout.write(json.dumps({'batches': [keys_of_batch(c) for c in job['batches']],
